@@ -686,3 +686,54 @@ pub fn gen_walk_case(rng: &mut crate::rng::Rng, fl: &str, id: &str) -> Vec<Strin
     l.push(format!("own.drop {g}"));
     l
 }
+
+/// structure at scale for the ownership accounting: a caterpillar (a spine with two leaves per spine node); targeted
+/// searches that stop early with nodes still queued, results kept while the node handles go, then everything dropped
+pub fn gen_caterpillar_case(rng: &mut crate::rng::Rng, fl: &str, id: &str, spine: usize) -> Vec<String> {
+    let mut l = vec![format!("case {fl} {id}")];
+    // one to three leaves per spine node (the width of the frontier varies along the spine)
+    let leaves: Vec<usize> = (0..spine).map(|_| 1 + rng.below(3)).collect();
+    let n = spine + leaves.iter().sum::<usize>();
+    for k in 0..n {
+        l.push(format!("own.new {k} {k}"));
+    }
+    let mut next = spine;
+    for i in 0..spine {
+        if i + 1 < spine {
+            l.push(format!("own.connect {i} {} 1", i + 1));
+        }
+        for _ in 0..leaves[i] {
+            l.push(format!("own.connect {i} {next} 2"));
+            next += 1;
+        }
+    }
+    let g = n;
+    l.push(format!("own.graph {g}"));
+    for k in 0..n {
+        l.push(format!("own.insert {g} {k}"));
+    }
+    // results in scratch slots n+1 .. n+8
+    let mut slot = n + 1;
+    for _ in 0..6 {
+        let t = spine / 2 + rng.below(spine / 2);
+        let kind = ["bfs", "dfs"][rng.below(2)];
+        l.push(format!("own.pathk {kind} path 0 {t} {slot}"));
+        slot += 1;
+    }
+    // every spine node once as the target of a breadth-first search that stops there (the result replaces the previous one)
+    for t in 1..spine {
+        l.push(format!("own.pathk bfs path 0 {t} {slot}"));
+    }
+    slot += 1;
+    l.push(format!("own.search 0 {} {slot}", spine - 1));
+    // the node handles go (the container and the results keep what they keep), then the container, then the results
+    for k in 0..n {
+        l.push(format!("own.drop {k}"));
+    }
+    l.push(format!("own.held {}", n + 1));
+    l.push(format!("own.drop {g}"));
+    for s in n + 1..=slot {
+        l.push(format!("own.drop {s}"));
+    }
+    l
+}
